@@ -13,6 +13,9 @@ def gen(tier, rng):
             if tier == "quick" and plan in (["bigdyn"],) and rep: continue
             raw = defgen.make_stream(rng, plan)
             streams.append((plan, raw))
+    for rep in range(3):
+        streams.append((["aligned-end"], defgen.aligned_fixed_stream(rng, k8=rep * 2 + 1)))
+        streams.append((["maxlen"], defgen.maxlen_stream(rng)))
     # zlib-made streams as a second foreign encoder
     for i, (cls, n) in enumerate([("text", 3000), ("runs", 5000), ("random", 400), ("records", 4000)] + ([("text", 60000), ("periodic", 200000)] if tier == "thorough" else [])):
         d = bytes(igz.corpus(rng, cls, n))
